@@ -83,6 +83,16 @@ class WrappersDriver:
             """documented"""
             return drv._body(a, b, args, kwargs, False)
 
+        # the wrapped functions carry attributes of their own, named like the wrappers' internals (as the wrapper objects
+        # of the other helper decorators do): a wrapper has to keep calling the function it was given
+        def decoy(*args, **kwargs):
+            return "decoy called instead of the wrapped function"
+
+        async def adecoy(*args, **kwargs):
+            return "decoy called instead of the wrapped function"
+
+        fn._function, afn._function = decoy, adecoy
+
         if kind == "asynchronous_fn":
             if self.s["exec"] == "explicit":
                 self.pool = ThreadPoolExecutor(1)
